@@ -55,6 +55,13 @@ func genC14(r *Rng, tier string) *Plan {
 	if r.Chance(1, 3) {
 		g.MakeCsrLeaf()
 	}
+	// hand-edited artifacts: text after the last block (blank line, comment, CRLF) - the file still
+	// holds the key / the request
+	for _, e := range g.Ents {
+		if r.Chance(1, 5) {
+			g.P.Add(Op{K: "append-art", Ent: e.ID, Data: Pick(r, []string{"\n", "# kept by hand\n", "\r\n", "trailing text", "\n\n# note\n"}), Label: "trailing-text"})
+		}
+	}
 	steps := r.Range(1, 5)
 	for i := 0; i < steps; i++ {
 		t := g.ent(Pick(r, g.Ents).ID)
